@@ -2,7 +2,7 @@
    Statements only. write_array_go / read_array_go are the model of ArrayHelpers.write_array_impl / read_array_impl instantiated
    with the comparison operators regenerated from the source (ops_now); key_lt is Python's < on sort keys (ints, bytes, tuples);
    key_lt_spec is the fixed-text order. The element codec and the key accessor are arbitrary (any schema, any comparer, any transform). *)
-From Symv Require Import Base.Bytes Base.PyOps Cats.LayoutInst Cats.ArrayProofs Cats.Sort Cats.SortProofs Cats.LayoutInstProofs.
+From Symv Require Import Base.Bytes Base.PyOps Cats.LayoutInst Cats.ArrayProofs Cats.Sort Cats.SortProofs Cats.LayoutInstProofs Cats.SortProofs2.
 From Coq Require Import Permutation Sorted.
 Open Scope Z_scope.
 
@@ -34,6 +34,49 @@ Theorem sort_keeps_equal_keys_in_input_order : forall (x y : keyv * value),
   key_lt (fst x) (fst y) = false -> key_lt (fst y) (fst x) = false -> sort_pairs key_lt [x; y] = [x; y].
 Proof. exact (sort_stable_on_equal_keys value key_lt). Qed.
 Print Assumptions sort_keeps_equal_keys_in_input_order.
+
+(* the same for lists of ANY length (stability of sorted()): for every key k the entries with key k appear in the result exactly as they
+   appear, and in the order in which they appear, in the input; key_eq is Python's == on sort keys *)
+Theorem sort_stable : forall (l : list (keyv * value)) (k : keyv), shape_ok (map fst l) ->
+  filter (fun p => key_eq (fst p) k) (sort_pairs key_lt l) = filter (fun p => key_eq (fst p) k) l.
+Proof. exact (@sort_stable_now value). Qed.
+Print Assumptions sort_stable.
+
+(* without any premise on the keys: a class of entries none of which is < another one keeps its input order *)
+Theorem sort_stable_on_unordered_class : forall (P : keyv * value -> bool) (l : list (keyv * value)),
+  (forall p q, In p l -> In q l -> P p = true -> P q = true -> key_lt (fst p) (fst q) = false) ->
+  filter P (sort_pairs key_lt l) = filter P l.
+Proof. exact (@sort_stable_class_now value). Qed.
+Print Assumptions sort_stable_on_unordered_class.
+
+(* the standard three-part formulation: non-descending, a rearrangement, stable *)
+Theorem sort_sorted_perm_stable : forall (l : list (keyv * value)), shape_ok (map fst l) ->
+  Sorted (fun p q => key_lt_spec (fst q) (fst p) = false) (sort_pairs key_lt l)
+  /\ Permutation (sort_pairs key_lt l) l
+  /\ forall k, filter (fun p => key_eq (fst p) k) (sort_pairs key_lt l) = filter (fun p => key_eq (fst p) k) l.
+Proof. exact (@sort_sorted_perm_stable_now value). Qed.
+Print Assumptions sort_sorted_perm_stable.
+
+(* relational reading: x before y in the input and equal keys => x before y in the result *)
+Theorem sort_keeps_relative_order : forall (l l1 l2 l3 : list (keyv * value)) x y, shape_ok (map fst l) ->
+  l = l1 ++ x :: l2 ++ y :: l3 -> fst x = fst y ->
+  exists m1 m2 m3, sort_pairs key_lt l = m1 ++ x :: m2 ++ y :: m3.
+Proof. exact (@sort_keeps_relative_order_now value). Qed.
+Print Assumptions sort_keeps_relative_order.
+
+(* a set of entries has at most one strictly ascending arrangement (the model-side statement of "at most one accepted encoding";
+   strict ascent already makes the keys pairwise distinct) ... *)
+Theorem strictly_sorted_permutation_unique : forall (l l' : list (keyv * value)),
+  Sorted (fun p q => key_lt_spec (fst p) (fst q) = true) l -> Sorted (fun p q => key_lt_spec (fst p) (fst q) = true) l' ->
+  Permutation l l' -> l = l'.
+Proof. exact (@strict_sorted_perm_unique value). Qed.
+Print Assumptions strictly_sorted_permutation_unique.
+
+(* ... and it is the one that sort() produces *)
+Theorem strictly_sorted_permutation_is_sort : forall (l l' : list (keyv * value)), shape_ok (map fst l) ->
+  Sorted (fun p q => key_lt_spec (fst p) (fst q) = true) l' -> Permutation l' l -> l' = sort_pairs key_lt l.
+Proof. exact (@strict_sorted_perm_is_sort value). Qed.
+Print Assumptions strictly_sorted_permutation_is_sort.
 
 (* Python's comparisons on sort keys are the specified order: < is it, >= (the rejection test of both helpers) is its negation *)
 Theorem comparer_order : forall a b, flat_key a = true -> same_shape a b = true ->
@@ -153,3 +196,44 @@ Proof.
     apply Forall_cons; [|apply Forall_cons; [|apply Forall_nil]]; apply admb_sound; vm_compute; reflexivity.
 Qed.
 Print Assumptions keyed_array_premises_nonvacuous.
+
+(* non-vacuity of the stability and uniqueness statements: five mosaics of the shipped array, three of them with id 1 (amounts 5, 6, 7
+   in input order) -- the premises shape_ok / the unordered class / the split with equal keys hold, the class of id 1 is non-empty and
+   keeps its order 5, 6, 7; two different strictly ascending permutations of one list do not exist, one (of [2;1;3]) does *)
+Definition ex_keyed (l : list (Z * Z)) : list (keyv * value) := map (fun p => (KInt (fst p), ex_mosaic (fst p) (snd p))) l.
+Example sort_stable_nonvacuous :
+  let l := ex_keyed [(3, 0); (1, 5); (2, 9); (1, 6); (0, 4); (1, 7)] in
+  shape_ok (map fst l)
+  /\ Forall2 (fun p k => elem_key sc_schema ex_R ex_array (snd p) = Ok (Some k)) l (map fst l)
+  /\ (forall p q, In p l -> In q l -> key_eq (fst p) (KInt 1) = true -> key_eq (fst q) (KInt 1) = true -> key_lt (fst p) (fst q) = false)
+  /\ filter (fun p => key_eq (fst p) (KInt 1)) l = ex_keyed [(1, 5); (1, 6); (1, 7)]
+  /\ sort_pairs key_lt l = ex_keyed [(0, 4); (1, 5); (1, 6); (1, 7); (2, 9); (3, 0)]
+  /\ (exists l1 l2 l3 x y, l = l1 ++ x :: l2 ++ y :: l3 /\ fst x = fst y /\ x <> y).
+Proof.
+  cbv zeta. split; [|split; [|split; [|split; [|split]]]].
+  - assert (H : forall k, In k (map fst (ex_keyed [(3, 0); (1, 5); (2, 9); (1, 6); (0, 4); (1, 7)])) -> exists z, k = KInt z).
+    { cbn. intros k Hk. repeat (destruct Hk as [<-|Hk]; [eexists; reflexivity|]). contradiction. }
+    intros p q Hp Hq. destruct (H p Hp) as [zp ->]. destruct (H q Hq) as [zq ->]. split; reflexivity.
+  - repeat constructor; vm_compute; reflexivity.
+  - intros p q Hp Hq Pp Pq. cbn in Hp, Hq.
+    repeat (destruct Hp as [<-|Hp]; [|]); try contradiction; try discriminate Pp;
+    repeat (destruct Hq as [<-|Hq]; [|]); try contradiction; try discriminate Pq; reflexivity.
+  - vm_compute. reflexivity.
+  - vm_compute. reflexivity.
+  - exists (ex_keyed [(3, 0)]), (ex_keyed [(2, 9)]), (ex_keyed [(0, 4); (1, 7)]), (KInt 1, ex_mosaic 1 5), (KInt 1, ex_mosaic 1 6).
+    split; [reflexivity|]. split; [reflexivity|]. discriminate.
+Qed.
+Print Assumptions sort_stable_nonvacuous.
+
+Example strictly_sorted_permutation_nonvacuous :
+  let l := ex_keyed [(2, 9); (1, 5); (3, 0)] in let l' := ex_keyed [(1, 5); (2, 9); (3, 0)] in
+  shape_ok (map fst l) /\ Sorted (fun p q => key_lt_spec (fst p) (fst q) = true) l' /\ Permutation l' l /\ l' = sort_pairs key_lt l.
+Proof.
+  cbv zeta. split; [|split; [|split]].
+  - intros p q Hp Hq. cbn in Hp, Hq.
+    repeat (destruct Hp as [<-|Hp]; [|]); try contradiction; repeat (destruct Hq as [<-|Hq]; [|]); try contradiction; split; reflexivity.
+  - repeat constructor.
+  - cbn. apply perm_swap.
+  - vm_compute. reflexivity.
+Qed.
+Print Assumptions strictly_sorted_permutation_nonvacuous.
